@@ -165,11 +165,11 @@ PROPS = {
         level='proof', units=[('V', 'V-SLAB', 'v_slab'), ('K', 'K-SLABMEM', None)],
         explanation='for all symbol counts and sizes: SymbolSlab::add_assign / mulassign_scalar / fma / set_reorder and perform_op realise apply_op on the logical symbols (whole view: every other symbol unchanged), '
                     'create_d builds the RFC D vector, gen_intermediate_symbols_with_plan == fold of apply_op over the plan; lemma: every op, hence every plan, acts independently on each byte column '
-                    '(column(apply_ops(D, ops), j) == apply_ops(column(D, j), ops)), so plans behave identically for every symbol size; xor-additivity and scalar homogeneity follow from the same element-wise form '
-                    'given GF(256) distributivity (K-GF). Bounded Kani stand-in K-SLABMEM runs the real slab ops (raw-pointer borrow, real kernels) on 3 symbols of 1..16 bytes',
+                    '(column(apply_ops(D, ops), j) == apply_ops(column(D, j), ops)), so plans behave identically for every symbol size; every op is additive over symbol-wise xor '
+                    '(lemma_op_additive, using distributivity of the polynomial product proved by bit_vector). Bounded Kani stand-in K-SLABMEM runs the real slab ops (raw-pointer borrow, real kernels) on 3 symbols of 1..16 bytes',
         assumptions=['kernel contracts (element-wise) assumed in V-SLAB: checked bounded by K-KERN (C11)', 'rule U2 / S3 models of from_raw_parts and &mut vec[a..b]', 'the solver\'s op list is data independent (syntactic: phases never read D)',
                      'Enc (enc_into) as xor of intermediate symbols at the RFC index sequence: index sequence decided by K-ENCIDX on the twin enc_indices; enc_into itself external'],
-        not_decided=['additivity / homogeneity stated as consequences, not as separate machine-checked lemmas', 'enc_into body (same loop shape as enc_indices) not under contract']),
+        not_decided=['scalar homogeneity (needs associativity/commutativity of the field product) is not machine-checked', 'enc_into body (same loop shape as enc_indices) not under contract']),
     'C06': dict(
         level='proof', units=[('V', 'V-SLAB', 'v_slab'), ('V', 'V-TAB', 'v_tab'), ('K', 'K-TAB', None)],
         explanation='decided part only: plan replay applies exactly the op list with the slab interpreter (gen_intermediate_symbols_with_plan == apply_ops over the D vector), the final Reorder is the only '
